@@ -64,12 +64,13 @@ Fixpoint parse_options (fuel : nat) (l : list N) (acc : list (N * list N)) : out
   | S f =>
     match l with
     | [] => Err E_EOF
-    | 0 :: r => parse_options f r acc
-    | 255 :: _ => Ok acc
     | x :: r =>
-      do '(len, r1) <- get_u8 r ;
-      do '(v, r2) <- get_bytes len r1 ;
-      parse_options f r2 (opt_extend acc x v)
+      if x =? 0 then parse_options f r acc          (* pad *)
+      else if x =? 255 then Ok acc                  (* end *)
+      else
+        do '(len, r1) <- get_u8 r ;
+        do '(v, r2) <- get_bytes len r1 ;
+        parse_options f r2 (opt_extend acc x v)
     end
   end.
 
